@@ -122,8 +122,21 @@ def run(R):
                     and q.src(a.value.args[2]) == "self._value":
                 sets.append((n, "getattr(%s, %s)" % (q.src(a.value.args[0]), q.src(a.value.args[1]))))
         slot_src = "self.%s" % slot
-        R.need(saves and sets, "idiom: %s.resume does not save/set in the recognised forms" % cls.qualname)
         site = R.site(res)
+        if sets and not saves:
+            # nothing in resume() reads the target at all: there is no form of "save" to recognise
+            reads = [x for x in q.scope_nodes(res.node) if isinstance(x, (ast.Attribute, ast.Name)) and isinstance(getattr(x, "ctx", None), ast.Load)
+                     and q.src(x).startswith("self._target") and not any(isinstance(p_, ast.Attribute) and p_.value is x and isinstance(p_.ctx, ast.Store)
+                                                                         for p_ in ast.walk(res.node))]
+            reads = [x for x in reads if q.src(x) != "self._target" or any(isinstance(c_, ast.Call) and q.call_name(c_) == "getattr" and c_.args and c_.args[0] is x
+                                                                           for c_ in ast.walk(res.node))]
+            if not reads:
+                R.violation("C07.SAVE-RESTORE", cls.qualname + ".resume:save-all-paths", site,
+                            "resume() establishes the override without reading the target's current value (the value pause() restores was captured at "
+                            "some other time, e.g. when the context was created): what another task assigned to the target while this one was suspended "
+                            "is overwritten with the stale value when this one is paused or leaves its block")
+                continue
+        R.need(saves and sets, "idiom: %s.resume does not save/set in the recognised forms" % cls.qualname)
         p = rcfg.find_path([rcfg.entry], [rcfg.exit], N, cut_nodes=[n for n, _ in saves])
         R.check(p is None, "C07.SAVE-RESTORE", cls.qualname + ".resume:save-all-paths", site,
                 "resume() saves the target's current value on every path",
